@@ -153,10 +153,13 @@ class Executor:
                 return list(val.as_long().to_bytes(size, "little"))
         raise NotEncoded("constant initializer")
 
-    def initial_memory(self, mem):
-        """Stores the bytes of constant globals that are small into `mem`."""
+    def initial_memory(self, mem, strings=False):
+        """Stores the bytes of small constant globals (lookup tables; with
+        strings=True also string constants) into `mem`."""
         for name, g in self.m.globals.items():
             if name not in self.global_addr or not g.constant:
+                continue
+            if isinstance(g.init, BytesConst) and not strings:
                 continue
             data = self.global_bytes(name)
             if data is None or len(data) > 4096:
@@ -236,6 +239,7 @@ class Executor:
                 iv = z3.SignExt(64 - iv.size(), iv)
             elif iv.size() > 64:
                 iv = z3.Extract(63, 0, iv)
+            iv = _simp(iv)
             if first:
                 s, _ = size_align(ty)
                 off = off + iv * bv(s, 64)
